@@ -172,6 +172,24 @@ class DomFamily:
             "the harness labels referents/ids in creation order; an observation is the table label -> (parent, children, name, class, properties) of every DOM plus descendants() order",
             "the Coq models are tied to dom.rs by this differential run only (hand-written model)",
         ]
+        # ---- C12 only: the generator of fresh ids (translator pattern + concurrent stress on the implementation)
+        if pid == "C12":
+            src = open(os.path.join(vlib.REPO, "rbx_types/src/unique_id.rs")).read()
+            atomic = re.search(r"static\s+INDEX\s*:\s*AtomicU32", src) and re.search(r"index\s*:\s*INDEX\s*\.\s*fetch_add\(\s*1\s*,", src)
+            per = "100000" if tier == "quick" else "3000000"
+            rc, o, _ = vlib.run([vlib.harness_bin(), "uidgen-run", "--threads", "16", "--per", per], timeout=3000)
+            out.coverage["uidgen"] = o.strip().split("\n")[0] if o.strip() else "no output"
+            out.coverage["uidgen_source_pattern"] = bool(atomic)
+            bad = [l for l in o.split("\n") if l.startswith("C12 uidgen")]
+            if rc != 0:
+                bad.append("C12 uidgen: harness crashed: " + o[-300:])
+            if bad:
+                rp = vlib.write_replay(pid, "uidgen", bad[0], ["rbxverif uidgen-run --threads 16 --per " + per] + bad)
+                out.violation(bad[0], rp, True)
+            elif not atomic:
+                rp = vlib.write_replay(pid, "translator", "UniqueId::now() no longer takes its index by a single INDEX.fetch_add(1, ..) on a static AtomicU32",
+                                       ["rbx_types/src/unique_id.rs"], broken="translator pattern for theorem C12_now_distinct_any_schedule (atomic fetch_add step of Model/UidGen.v)")
+                out.violation("the atomic-step model of UniqueId::now() is no longer tied to the source; the concurrent stress found no repeated id", rp, False)
         # ---- report
         if mine:
             cid = mine[0].split(" ")[0]
